@@ -180,6 +180,11 @@ def classify_type(s, n):
         return {"enum": "renamed-enum", "select": "renamed-select"}.get(k, "renamed")
     if tr[0] == "A":
         el = tr[6]
+        x = tr
+        while x[0] == "A":
+            if (x[2] is not None and x[2] < 0) or (isinstance(x[3], int) and x[3] < 0):
+                return "aggregate-negative-bound"
+            x = x[6]
         if el[0] == "A":
             return "multidim-aggregate"
         if el[0] == "N":
